@@ -232,6 +232,13 @@ fn build_block(c: &Case, ks: &Keys, r: &mut Rng, salt: u64) -> Block {
         let signer = t.from.first().map(|k| *k as usize).unwrap_or(0);
         tx.sign(&ks.sk[signer]);
         b.add_transaction(tx);
+        // every other block is generated once more while it is still growing (a block object that was generated before its
+        // last transactions were added): whatever `generate` caches at that point is stale for the final transaction set
+        if salt % 2 == 1 && i == 0 {
+            let _ = b.generate();
+            // the commitment is only computed when it is unset: clear it so that the final generate recomputes it
+            b.merkle_root = [0; 32];
+        }
     }
     b.generate().expect("block.generate");
     b.sign(&ks.sk[0]);
